@@ -217,6 +217,10 @@ type Conn struct {
 	closed bool
 	// WriteErr, when set, is returned by every Write (fault injection).
 	writeErr error
+
+	failArmed    bool
+	failAfter    int
+	failAfterErr error
 	// virtual write deadline: armed by SetDeadline / SetWriteDeadline, expires only when fired
 	wDeadlineSet bool
 	wFired       bool
@@ -234,6 +238,13 @@ func (c *Conn) Read(p []byte) (int, error) { return c.rd.read(p) }
 
 func (c *Conn) Write(p []byte) (int, error) {
 	c.mu.Lock()
+	if c.failArmed && c.writeErr == nil && !c.closed {
+		if c.failAfter <= 0 {
+			c.writeErr = c.failAfterErr
+		} else {
+			c.failAfter--
+		}
+	}
 	we := c.writeErr
 	closed := c.closed
 	wexp := c.wDeadlineSet && c.wFired
@@ -285,6 +296,15 @@ func (c *Conn) CloseWriteWithError(err error) {
 	if c.wr.closeWrite(err) && c.tap != nil {
 		c.tap.Closed(c.dir, "closewrite:"+err.Error())
 	}
+}
+
+// FailWriteAfter lets n more Write calls on this end succeed and makes every later one fail with
+// err: the peer is gone (reset) or does not take data any more (timeout), noticed on the n+1-th
+// write, while what the peer had sent before can still be read.
+func (c *Conn) FailWriteAfter(n int, err error) {
+	c.mu.Lock()
+	c.failAfter, c.failAfterErr, c.failArmed = n, err, true
+	c.mu.Unlock()
 }
 
 // SetWriteErr makes every later Write on this end fail with err.
